@@ -4,6 +4,9 @@ EXTENDS BestPath, BestPathDom
 
 CONSTANTS Pool, MedVals, TsVals, StaleVals   \* Pool \in {"med","attr","tie"}
 
+MedValsFull == {-1, 5, 10}
+MedValsTwo == {5, 10}
+
 PoolSources ==
   CASE Pool = "med"  -> {"E1", "E2", "E3", "I1"}
     [] Pool = "attr" -> {"L", "E1", "I1"}
